@@ -62,7 +62,7 @@ func drawLoopReply(rt *rapid.T) *replyPlan {
 
 func TestC08WorkerThreadLoop(t *testing.T) {
 	rec := simkit.NewRecorder(t, "C08", "worker_thread_loop",
-		"the real builder.LaunchWorkerThread loop on synctest bubble time (clock.SystemClock) against the scripted scheduler (a pre-drawn list of replies with latencies: execute/idle/no desired state/RPC error/invalid timestamp, then a scheduler without work) and an autonomous instrumented executor (drawn run time, progress updates incl. > 10, delay after cancellation); the outer context is cancelled a drawn delay after the n-th Synchronize arrived. Oracle: the request and executor oracles of run_model, plus: the routine returns only after shutdown, eventually, and at that instant the scheduler believes the worker idle (last delivered reply left it idle) or the last provided next-sync time was missed by > 1 min; no request received after the cancellation has prefer_being_idle=false; freshness/completion: after a valid no-desired-state reply with next-sync in the future to an Executing report, the request that follows at the same bubble instant must report at least what sat in the update channel when the reply was handed out (Completed only if bubble time has advanced since Execute returned); livelock backstop: 3000 Synchronize calls at one bubble instant. NON-TRIVIAL: the context was cancelled while an Execute was running, or a pre-emption happened; distinct by plan hash")
+		"the real builder.LaunchWorkerThread loop on synctest bubble time (clock.SystemClock) against the scripted scheduler (a pre-drawn list of replies with latencies: execute/execute request that fails the worker's validation/idle/no desired state/RPC error/invalid timestamp, then a scheduler without work) and an autonomous instrumented executor (drawn run time, progress updates incl. > 10, delay after cancellation); the outer context is cancelled a drawn delay after the n-th Synchronize arrived. Oracle: the request and executor oracles of run_model, plus: the routine returns only after shutdown, eventually, and at that instant the scheduler believes the worker idle (last delivered reply left it idle) or the last provided next-sync time was missed by > 1 min; no request received after the cancellation has prefer_being_idle=false; freshness/completion: after a valid no-desired-state reply with next-sync in the future to an Executing report, the request that follows at the same bubble instant must report at least what sat in the update channel when the reply was handed out (Completed only if bubble time has advanced since Execute returned); livelock backstop: 3000 Synchronize calls at one bubble instant. NON-TRIVIAL: the context was cancelled while an Execute was running, or a pre-emption happened; distinct by plan hash")
 	rapid.Check(t, func(rt *rapid.T) {
 		plan := &loopPlan{}
 		plan.Replies = rapid.SliceOfN(rapid.Custom(drawLoopReply), 0, 12).Draw(rt, "replies")
